@@ -16,9 +16,13 @@ type MerkleBlock struct {
 	Flags   []byte
 }
 
-// DecodeBinary implements the Serializable interface.
+// DecodeBinary implements the Serializable interface. The header of a merkle
+// block carries the previous state root exactly when the headers of the network
+// do: a caller that knows the setting pre-sets a Header with StateRootEnabled
+// (network.Message does), the flag is kept for the header that is decoded.
 func (m *MerkleBlock) DecodeBinary(br *io.BinReader) {
-	m.Header = &block.Header{}
+	sr := m.Header != nil && m.Header.StateRootEnabled
+	m.Header = &block.Header{StateRootEnabled: sr}
 	m.Header.DecodeBinary(br)
 
 	txCount := int(br.ReadVarUint())
